@@ -67,6 +67,47 @@ func runC16(c *core.Ctx) {
 		if len(impls) != 2 {
 			ok, detail = false, fmt.Sprintf("expected the ordered and unordered implementations, found %d", len(impls))
 		}
+		// mode selection: the implementation that does not carry indices (unordered) is called only where
+		// option.RandomOrder is known to be true
+		core.Instrs(pm, func(ins ssa.Instruction) {
+			call, isC := ins.(*ssa.Call)
+			if !isC {
+				return
+			}
+			g := core.Callee(&call.Call)
+			if g == nil || !p.InRepo(g) || len(call.Call.Args) != 3 {
+				return
+			}
+			if c16carriesIndex(g) {
+				return
+			}
+			idx := false
+			for _, h := range core.HelpersOf(p, []*ssa.Function{g}) {
+				if c16carriesIndex(h) {
+					idx = true
+				}
+			}
+			if idx {
+				return
+			}
+			random := false
+			for _, cnd := range core.EdgeFacts(ins.Block()) {
+				n := core.Normalize(cnd)
+				if n.True && core.FieldKey(n.V) == "PMapOption.RandomOrder" {
+					random = true
+				}
+				if m, isM := core.AsCmp(n); isM {
+					if core.FieldKey(m.X) == "PMapOption.RandomOrder" {
+						if k, isK := m.Y.(*ssa.Const); isK && (m.Op == token.EQL && isTrueConst(k) || m.Op == token.NEQ && !isTrueConst(k)) {
+							random = true
+						}
+					}
+				}
+			}
+			if !random {
+				ok, detail = false, "the unordered implementation ("+g.Name()+") is used where RandomOrder is not known to be set: results come back in completion order in the default (ordered) mode"
+			}
+		})
 		c.Check(ok, "R4", "PMap/worker-count", p.Pos(pm.Pos()), "worker = len(list), or FixedPool when 0 < FixedPool < len(list)", detail+": a non-positive or oversized pool size changes how many goroutines run (0 workers = f never applied, results all zero)")
 	}
 	for _, im := range impls {
@@ -534,4 +575,25 @@ func c16ordered(p *core.Prog, im, producer, workerFn *ssa.Function, list, fParam
 		return false, "results are not re-assembled by index (collected under their key and slot i filled from key i): output order would follow arrival order"
 	}
 	return true, "job key = element index → result key = job key → slot i = result[i]"
+}
+
+// c16carriesIndex: the implementation tags its jobs with the element index (its job channel carries maps keyed by int).
+func c16carriesIndex(im *ssa.Function) bool {
+	found := false
+	core.InstrsDeep(im, func(_ *ssa.Function, ins ssa.Instruction) {
+		if mk, ok := ins.(*ssa.MakeChan); ok {
+			if ch, isCh := mk.Type().Underlying().(*types.Chan); isCh {
+				if _, isMap := ch.Elem().Underlying().(*types.Map); isMap {
+					found = true
+				}
+				if st, isSt := ch.Elem().Underlying().(*types.Struct); isSt && st.NumFields() >= 2 {
+					found = true // {index, value} job struct
+				}
+			}
+		}
+	})
+	for _, h := range im.AnonFuncs {
+		_ = h
+	}
+	return found
 }
